@@ -21,10 +21,10 @@ use datafusion_common::tree_node::{
 };
 use datafusion_common::{DataFusionError, Result as DfResult};
 use std::cell::RefCell;
-use std::collections::{HashMap, HashSet};
+use std::collections::{BTreeMap, HashMap, HashSet};
 use std::marker::PhantomData;
 use std::sync::atomic::{AtomicU64, Ordering};
-use std::sync::Arc;
+use std::sync::{Arc, Mutex};
 use vcommon::{fp_mix, fp_str, json, Args, Json, Report, Rng};
 
 #[path = "c42/impls.rs"]
@@ -680,12 +680,31 @@ pub fn judge_opt<N: Subject>(rep: &Report, api: Api, api_name: &str, ty: &str, i
         Some(q) if diff_opt(&exp_q, got, ignore_rec).is_none() => q.to_string(),
         _ => format!("{kind}/{api_name}/{ty}"),
     };
+    let witness = json!({"type": ty, "api": api_name, "input_tree": input.show(), "expected_by_contract": exp.to_json(), "observed": got.to_json()});
+    record_violation(rep, &sig, ty, api_name, witness);
+}
+
+/// smallest witness per (signature, type): (size, witness)
+static WITNESSES: Mutex<BTreeMap<String, (usize, Json)>> = Mutex::new(BTreeMap::new());
+
+/// Every violation is counted; the first five of a signature are handed to the report (it keeps
+/// no more anyway), and the smallest witness per signature and type is kept for the evidence.
+pub fn record_violation(rep: &Report, sig: &str, ty: &str, api_name: &str, witness: Json) {
     rep.count(&format!("violations/{sig}"), 1);
     rep.count(&format!("violations_by_type/{sig}/{ty}/{api_name}"), 1);
-    rep.violation(
-        &sig,
-        json!({"type": ty, "api": api_name, "input_tree": input.show(), "expected_by_contract": exp.to_json(), "observed": got.to_json()}),
-    );
+    // witnesses in which the invoked callbacks differ are preferred over "returned value only"
+    let same_calls = witness.get("expected_by_contract").and_then(|e| e.get("calls")) == witness.get("observed").and_then(|e| e.get("calls"));
+    let size = witness.to_string().len() + if same_calls { 1 << 30 } else { 0 };
+    {
+        let mut w = WITNESSES.lock().unwrap_or_else(|e| e.into_inner());
+        let e = w.entry(format!("{sig} @ {ty}")).or_insert((usize::MAX, Json::Null));
+        if size < e.0 {
+            *e = (size, witness.clone());
+        }
+    }
+    if rep.get_count(&format!("violations/{sig}")) <= 5 {
+        rep.violation(sig, witness);
+    }
 }
 
 /// run reference and real API with the same hash policy; returns (nontrivial, calls)
@@ -697,8 +716,7 @@ pub fn compare_hashed<N: Subject + TreeNode>(rep: &Report, ty: &str, api: Api, n
     let mut got = match got {
         Ok(g) => g,
         Err(p) => {
-            rep.count(&format!("violations/panic/{}/{ty}", api.name()), 1);
-            rep.violation(&format!("panic/{}/{ty}", api.name()), json!({"type": ty, "api": api.name(), "input_tree": input.show(), "policy_seed": seed, "panic": p, "expected_by_contract": exp.to_json()}));
+            record_violation(rep, &format!("panic/{}/{ty}", api.name()), ty, api.name(), json!({"type": ty, "api": api.name(), "input_tree": input.show(), "policy_seed": seed, "panic": p, "expected_by_contract": exp.to_json()}));
             return (false, 0);
         }
     };
@@ -1126,7 +1144,7 @@ fn exhaust_item<H: Harness>(rep: &Report, shape: &Shape, shape_idx: usize, api: 
                     maybe_corrupt(&mut got);
                     judge(rep, api, api.name(), H::NAME, &input, &exp, &got, || Policy::Table { opts, table: table.clone() });
                 }
-                Err(p) => rep.violation(&format!("panic/{}/{}", api.name(), H::NAME), json!({"type": H::NAME, "api": api.name(), "input_tree": input.show(), "panic": p, "expected_by_contract": exp.to_json()})),
+                Err(p) => record_violation(rep, &format!("panic/{}/{}", api.name(), H::NAME), H::NAME, api.name(), json!({"type": H::NAME, "api": api.name(), "input_tree": input.show(), "panic": p, "expected_by_contract": exp.to_json()})),
             }
             table
         },
@@ -1278,8 +1296,7 @@ where
                 }
                 if let Some(kind) = diff(&exp, &got) {
                     let sig = format!("{kind}/{label}/{name}");
-                    rep.count(&format!("violations/{sig}"), 1);
-                    rep.violation(&sig, json!({"container": name, "api": label, "elements": elems.iter().map(|e| e.show()).collect::<Vec<_>>(), "expected_by_contract": exp.to_json(), "observed": got.to_json()}));
+                    record_violation(rep, &sig, name, label, json!({"container": name, "api": label, "elements": elems.iter().map(|e| e.show()).collect::<Vec<_>>(), "expected_by_contract": exp.to_json(), "observed": got.to_json()}));
                 }
                 table
             },
@@ -1390,25 +1407,40 @@ fn run(args: &Args) -> i32 {
     // of the other half then make the run inconclusive)
     let part = args.opt_str("part").unwrap_or("all").to_string();
     let max_nodes = if part == "impl" { [1, 1, 1, 1] } else { max_nodes };
+    let progress = |what: &str| {
+        if miri {
+            eprintln!("c42[miri] {what} at {:.0}s", rep.elapsed_s());
+        }
+    };
+    progress("start");
     let shapes = run_exhaustive(&rep, args, max_nodes);
+    progress("exhaustive part done");
     rep.extra("exhaustive_max_nodes", json!({"VecNode": max_nodes[0], "ConcreteNode": max_nodes[1], "ArcDynNode": max_nodes[2], "TupleOptBoxNode": max_nodes[3]}));
     rep.extra("exhaustive_tree_shapes", json!(shapes.len()));
     rep.set_exhaustive(true);
     if part != "impl" {
         run_containers(&rep, miri);
         let n_rand = if miri { args.opt_u64("random", 200) } else { args.bound("random", 200_000, 6_000_000) };
+        progress("containers done");
         run_random_harness(&rep, args, n_rand, stage_no, if miri { 8 } else { 12 });
+        progress("random harness trees done");
     }
     if part != "harness" {
         let n_impl = if miri { args.opt_u64("impl_cases", 60) } else { args.bound("impl_cases", 140_000, 4_200_000) };
         impls::run_implementors(&rep, args, n_impl);
+        progress("implementors done");
     }
 
     // coverage obligations
     for ty in ["VecNode", "ConcreteNode", "ArcDynNode", "TupleOptBoxNode"] {
         let missing: Vec<&str> = ALL_APIS.iter().filter(|a| rep.get_count(&format!("exhaustive/{ty}/{}", a.name())) == 0).map(|a| a.name()).collect();
-        rep.obligation(&format!("exhaustive-all-apis/{ty}"), missing.is_empty(), &format!("APIs without an exhaustive run: {missing:?}"));
+        rep.obligation(&format!("exhaustive-all-apis/{ty}"), missing.is_empty(), &format!("every API has an exhaustive run; missing: {missing:?}"));
     }
     impls::obligations(&rep, miri);
+    let w = WITNESSES.lock().unwrap_or_else(|e| e.into_inner());
+    if !w.is_empty() {
+        rep.extra("smallest_witness_per_signature_and_type", Json::Object(w.iter().map(|(k, v)| (k.clone(), v.1.clone())).collect()));
+    }
+    drop(w);
     rep.finish()
 }
